@@ -72,12 +72,15 @@ func executePlan(plan *Plan, replay bool, trace bool) (w *World, res *RunResult)
 	} else {
 		r := newRand(plan.Seed, "gen")
 		maxSteps := plan.Config.Heights * maxStepsPerHeight
+		wal := openWAL(plan)
 		for i := 0; int(w.Cmt.Height) < plan.Config.Heights && i < maxSteps && w.Cmt.Halted == ""; i++ {
 			st := w.nextStep(r)
 			st.I = len(plan.Steps)
 			plan.Steps = append(plan.Steps, st)
+			wal.step(st) // written ahead: if the process dies in this step the parent still has the plan
 			w.apply(st)
 		}
+		wal.close()
 		if plan.Config.FaultFree && w.Cmt.Halted == "" {
 			// bounded liveness once the workload stops: plain blocks, then the queues must be empty
 			// the tail is sized by the observed hand-over rate: one voted block hash per block, the other kinds at least eight
@@ -294,4 +297,59 @@ func (w *World) finalChecks(replay bool) {
 		return
 	}
 	w.finalRelayerChecks()
+}
+
+// write-ahead log of the plan being generated (C19: a crash of the worker process is what a crash
+// of the node looks like; the parent reports the prefix that killed it)
+type walFile struct{ f *os.File }
+
+var walPath string
+
+func openWAL(p *Plan) *walFile {
+	if walPath == "" {
+		return &walFile{}
+	}
+	f, err := os.Create(walPath)
+	if err != nil {
+		return &walFile{}
+	}
+	hdr := *p
+	hdr.Steps = nil
+	b, _ := json.Marshal(&hdr)
+	f.Write(append(b, '\n'))
+	return &walFile{f}
+}
+
+func (w *walFile) step(st Step) {
+	if w.f != nil {
+		b, _ := json.Marshal(&st)
+		w.f.Write(append(b, '\n'))
+	}
+}
+
+func (w *walFile) close() {
+	if w.f != nil {
+		w.f.Close()
+		os.Remove(w.f.Name())
+	}
+}
+
+// planFromWAL rebuilds the plan a dead worker was executing.
+func planFromWAL(path string) (*Plan, error) {
+	b, err := os.ReadFile(path)
+	if err != nil {
+		return nil, err
+	}
+	lines := strings.Split(strings.TrimSpace(string(b)), "\n")
+	p := new(Plan)
+	if err := json.Unmarshal([]byte(lines[0]), p); err != nil {
+		return nil, err
+	}
+	for _, ln := range lines[1:] {
+		var st Step
+		if json.Unmarshal([]byte(ln), &st) == nil {
+			p.Steps = append(p.Steps, st)
+		}
+	}
+	return p, nil
 }
